@@ -70,6 +70,7 @@ class SymCtx(BaseCtx):
         self.inputs = {}        # name -> SR var (scalars) in creation order
         self.int_inputs = set()
         self.fp_inputs = set()
+        self.witness_hints = []   # candidate counterexamples produced by the structural rules (tried before any query)
         self.pinned = pinned
         from vf.engine import install
         self.np = install.NP
@@ -210,6 +211,8 @@ class SymCtx(BaseCtx):
         for wv, x in zip(weights, arr):
             rhs = rhs + wv * S.sym_abs(x)
         if not isinstance(expr, S.SR):
+            if abs(expr) == 0 and all(float(w) >= 0 for w in weights):
+                return True                      # 0 <= sum of non-negative terms
             return abs(expr) <= 1e-300 if not isinstance(rhs, S.SR) else (abs(expr) <= rhs)
         formula = S.sym_abs(expr) <= rhs
         if force_solver:
@@ -225,6 +228,18 @@ class SymCtx(BaseCtx):
             k = keys.get(m)
             if k is None or abs(c) > S.to_frac(weights[k]):
                 ok = False
+                if k is not None:
+                    # necessity direction of the rule: the unit record along variable k is a witness
+                    hint = {}
+                    for name, (v, lo, hi) in self.inputs.items():
+                        if name in self.int_inputs or name in self.fp_inputs:
+                            continue
+                        hint[name] = 0.0 if (lo is None or lo <= 0 <= (hi if hi is not None else 0)) else float(lo)
+                    for name, (v, lo, hi) in self.inputs.items():
+                        if v.p == arr[k].p:
+                            hint[name] = float(hi) if hi is not None else 1.0
+                    if len(self.witness_hints) < 8:
+                        self.witness_hints.append(hint)
                 break
         return True if ok else formula
 
@@ -411,9 +426,14 @@ def _point_models(eng, ctx, neg, tries=4):
         return None
     rng = random.Random(4711)
     nice = [-2.0, -1.0, -0.5, 0.5, 1.0, 2.0, 3.0, 0.25, 1.5]
-    for t in range(tries):
+    hints = [h for h in ctx.witness_hints if set(h) == set(ctx.inputs)]
+    for t in range(len(hints) + tries):
         cand = {}
+        if t < len(hints):
+            cand = dict(hints[t])
         for name, (v, lo, hi) in ctx.inputs.items():
+            if name in cand:
+                continue
             lo_ = -1000.0 if lo is None else float(lo)
             hi_ = 1000.0 if hi is None else float(hi)
             if name in ctx.int_inputs:
